@@ -1,0 +1,43 @@
+package utils
+
+import (
+	"context"
+
+	ipfslog "berty.tech/go-ipfs-log"
+	cid "github.com/ipfs/go-cid"
+	ipld "github.com/ipfs/go-ipld-format"
+	coreiface "github.com/ipfs/kubo/core/coreiface"
+)
+
+// EntryAddress returns the address of the content of an entry, as io encodes
+// it: the address the entry has when this code base writes it. Nothing is
+// written and the node is not asked anything, so the only way it can fail is
+// an entry that io cannot encode - which is a fact about the entry, not about
+// the state of the node or of the context.
+func EntryAddress(ctx context.Context, io ipfslog.IO, ipfs coreiface.CoreAPI, e ipfslog.Entry) (cid.Cid, error) {
+	return io.Write(ctx, addressOnlyAPI{ipfs}, e, nil)
+}
+
+// addressOnlyAPI is the node with a DAG service that accepts every node and
+// stores none
+type addressOnlyAPI struct {
+	coreiface.CoreAPI
+}
+
+func (a addressOnlyAPI) Dag() coreiface.APIDagService {
+	if a.CoreAPI == nil {
+		return addressOnlyDag{}
+	}
+
+	return addressOnlyDag{a.CoreAPI.Dag()}
+}
+
+type addressOnlyDag struct {
+	coreiface.APIDagService
+}
+
+func (addressOnlyDag) Add(context.Context, ipld.Node) error { return nil }
+
+func (addressOnlyDag) AddMany(context.Context, []ipld.Node) error { return nil }
+
+func (d addressOnlyDag) Pinning() ipld.NodeAdder { return d }
